@@ -1125,6 +1125,10 @@ class Interp:
             return self.call(fv[1], args, st, n)
         if fv[0] == "enum" and not fv[2]:
             return [(OK, ("enum", fv[1], tuple(args)), st)]  # tuple-variant constructor used as a function
+        if fv[0] == "abs" and self.module is not None and hasattr(self.module, "apply_abs"):
+            r = self.module.apply_abs(self, fv, args, st, n)
+            if r is not None:
+                return r
         return [(OK, unk("apply"), st)]
 
     def call(self, callee, args, st, n):
